@@ -143,8 +143,13 @@ pub fn outcome_from_json(v: &Value) -> Outcome {
 /// Worker loop: read `{"rendered":…}` lines, evaluate, answer with an outcome line.
 pub fn worker_loop<P: Prop>(prop: &P) -> i32 {
     install_panic_hook();
+    // protocol goes over a private copy of fd 1; fd 1 itself is pointed at stderr so that
+    // code under test that prints to stdout cannot corrupt the protocol
+    use std::os::fd::FromRawFd;
+    let proto_fd = unsafe { libc::dup(1) };
+    unsafe { libc::dup2(2, 1) };
+    let mut proto = unsafe { std::fs::File::from_raw_fd(proto_fd) };
     let stdin = std::io::stdin();
-    let stdout = std::io::stdout();
     for line in stdin.lock().lines() {
         let Ok(line) = line else { break };
         let Ok(v) = serde_json::from_str::<Value>(&line) else { continue };
@@ -152,9 +157,8 @@ pub fn worker_loop<P: Prop>(prop: &P) -> i32 {
             Some(case) => eval_guarded(prop, &case),
             None => Outcome { inconclusive: Some("worker could not rebuild case".into()), ..Default::default() },
         };
-        let mut out = stdout.lock();
-        let _ = writeln!(out, "{}", outcome_to_json(&o));
-        let _ = out.flush();
+        let _ = writeln!(proto, "{}", outcome_to_json(&o));
+        let _ = proto.flush();
     }
     0
 }
